@@ -11,7 +11,7 @@
    `xml_decode_pinned` (the code before that commit): both were inserted by the rewrite pass.  The spec side (Spec/XmlSpec.v, written from docs/xml.md) is EXECUTED on every generated document by
    modelrun and, together with expat + tools/xmlcheck.py on the real text, decides the writer direction per case; the
    reader direction is decided by the documents of the independent writer harness/src/xmlspecgen.rs.
-   NOT proven: agreement of xspec_decode with xml_encode for arbitrary DOMs. *)
+   Agreement of xspec_decode with xml_encode for arbitrary DOMs: proved at the end of this file (Proofs/XmlSpecAgree.v). *)
 From Coq Require Import List NArith ZArith Bool String.
 From RbxVerif Require Import Base Bytes Value Db CodecDom XmlEvents XmlValues XmlFile XmlInt XmlText XmlFileFacts.
 Import ListNotations.
@@ -317,4 +317,161 @@ Theorem C05_names_not_sorted_with_reflection :
          List.map pname_of (props_of x) = [B "Name"; B "size"; B "Transparency"] /\
          bytes_ltb (B "size") (B "Transparency") = false.
 Proof. exact names_not_sorted_with_reflection. Qed.
+
+(* ==== AGREEMENT OF THE DOCUMENT DECODER WITH THE SERIALIZER (Proofs/XmlSpecAgree.v), for arbitrary DOMs:
+   the parser-side element tree of everything the writer emits is an explicit translation of the writer-side tree (text coalescing, dropped
+   inter-markup white space, CDATA splitting as the channel does; fuel sufficient); the decoder written from docs/xml.md accepts it (never an
+   SE_* error: one roblox root of version 4, every Item with class and a unique non-null referent, exactly one Properties, dictionary keys
+   unique), lists exactly the written instances in document order with class, parent index and referent text as written, returns the emitted
+   dictionary, and per instance reads the Name and every written property back: String, Bool, Int32/64, Enum token, base64 blobs exactly, Ref as
+   the document index of the target's Item (None for null / unwritten), SharedString through the dictionary; floats and compound types are raw
+   elements to this decoder (their layout is checked per case by tools/xmlcheck.py).  Hypotheses shown necessary: a root listed twice (SE_ITEM),
+   hashes agreeing on the 16 bytes written (SE_SHARED), colliding hashes. *)
+From RbxVerif Require Import Attr Tags BinValues XmlSpec XmlStructure XmlSpecAgree.
+
+Theorem C05_tree_of_channel_flats :
+  forall (ts : list wnode) (revs : list revent),
+       channel (flats ts) = Ok revs -> tree_of_events revs = Some (nodes_of ts).
+Proof. exact tree_of_channel_flats. Qed.
+
+Theorem C05_xml_encode_tree_of_events :
+  forall (e : xenv) (beh : ebehavior) (d : cdom) (roots : list N) (evs : list wevent)
+         (revs : list revent),
+       xml_encode e beh d roots = Ok evs ->
+       channel evs = Ok revs ->
+       exists ts : list wnode, tree_of_wevents evs = Some ts /\ tree_of_events revs = Some (nodes_of ts).
+Proof. exact xml_encode_tree_of_events. Qed.
+
+Theorem C05_xml_encode_spec_decode :
+  forall (e : xenv) (beh : ebehavior) (d : cdom) (roots : list N) (evs : list wevent)
+         (revs : list revent) (doc : list node),
+       xml_encode e beh d roots = Ok evs ->
+       channel evs = Ok revs ->
+       tree_of_events revs = Some doc ->
+       NoDup (written d roots) ->
+       prefix_injective e ->
+       hash_is_bytes e ->
+       exists (m : list (N * N)) (dl : list (bytes * bytes)) (f : sfile) (pl : list (N * N)),
+         map_injective m /\
+         Sorted.StronglySorted XmlDeterminism.klt dl /\
+         (forall h c : bytes, In (h, c) dl -> xe_hash e c = Some h) /\
+         xspec_decode doc = Ok f /\
+         idxs_spec d 0 1 roots pl /\
+         List.map fst pl = written d roots /\
+         Forall2 (inst_rel d m (prop_spec e beh m dl)) pl (sf_insts f) /\
+         sf_dict f = dict_out dl /\
+         (hash_dom_bytes e -> sf_dict f = List.map (fun hc : bytes * bytes => (md5_key (fst hc), snd hc)) dl) /\
+         refs_resolved f = true.
+Proof. exact xml_encode_spec_decode. Qed.
+
+Theorem C05_decode_prop_written :
+  forall (o : xoracle) (v : value) (tag : bytes) (inner : list wnode) (insts : list sinst)
+         (dc : list (bytes * bytes)),
+       write_xml o v = Some (tag, Ok (flats inner)) ->
+       (forall b : bytes, binary_payload v = Some b -> Forall (fun x : N => x < 256) b) ->
+       decode_prop insts dc tag (nodes_in t0 inner) = sval_of v tag (nodes_in t0 inner).
+Proof. exact decode_prop_written. Qed.
+
+Theorem C05_decode_prop_ref :
+  forall (d : cdom) (m : list (N * N)) (Q : bytes -> bytes -> value -> option wnode -> Prop)
+         (pl : list (N * N)) (sis : list sinst) (dc : list (bytes * bytes)) (r : N),
+       map_injective m ->
+       (r <> 0 -> exists x : N, lookup r m = Some x) ->
+       Forall2 (inst_rel d m Q) pl sis ->
+       decode_prop sis dc (B "Ref") (nodes_in t0 [WText (ref_text m r)]) =
+       SRef (if r =? 0 then None else pos_of r (List.map fst pl) 1).
+Proof. exact decode_prop_ref. Qed.
+
+Theorem C05_decode_prop_shared :
+  forall (e : xenv) (dl : list (bytes * bytes)) (sis : list sinst) (c h : bytes),
+       prefix_injective e ->
+       hash_is_bytes e ->
+       hash_dom_bytes e ->
+       hash_injective e ->
+       Sorted.StronglySorted XmlDeterminism.klt dl ->
+       (forall h0 c0 : bytes, In (h0, c0) dl -> xe_hash e c0 = Some h0) ->
+       xe_hash e c = Some h ->
+       In h (List.map fst dl) ->
+       decode_prop sis (dict_out dl) (B "SharedString") (nodes_in t0 [leaf (md5_key h)]) = SShared (Some c).
+Proof. exact decode_prop_shared. Qed.
+
+Theorem C05_xml_encode_spec_agree :
+  forall (e : xenv) (beh : ebehavior) (d : cdom) (roots : list N) (evs : list wevent)
+         (revs : list revent) (doc : list node),
+       xml_encode e beh d roots = Ok evs ->
+       channel evs = Ok revs ->
+       tree_of_events revs = Some doc ->
+       NoDup (written d roots) ->
+       prefix_injective e ->
+       hash_is_bytes e ->
+       hash_dom_bytes e ->
+       hash_injective e ->
+       exists (f : sfile) (pl : list (N * N)),
+         xspec_decode doc = Ok f /\
+         refs_resolved f = true /\
+         idxs_spec d 0 1 roots pl /\
+         List.map fst pl = written d roots /\
+         Forall2 (inst_agree e beh d (written d roots) f) pl (sf_insts f).
+Proof. exact xml_encode_spec_agree. Qed.
+
+Theorem C05_prop_agree_noreflection :
+  forall (e : xenv) (ids : list N) (sis : list sinst) (dc : list (bytes * bytes)) 
+         (class : bytes) (kv : bytes * value) (on : option wnode),
+       prop_agree e ENoReflection ids sis dc class kv on ->
+       exists (tag : bytes) (inner : list wnode),
+         on = Some (WNode tag (name_attr (fst kv)) inner) /\
+         (payload_ok (snd kv) ->
+          decode_prop sis dc tag (nodes_in t0 inner) = sval_full ids (snd kv) tag (nodes_in t0 inner)).
+Proof. exact prop_agree_noreflection. Qed.
+
+Theorem C05_duplicate_root_refuted :
+  ' evs <-
+       xml_encode XmlFileFacts.e0 EWriteUnknown
+         [{| i_ref := 1; i_parent := 0; i_class := B "Folder"; i_name := B "f"; i_props := [] |}] [
+         1; 1];; spec_read evs = Err SE_ITEM.
+Proof. exact duplicate_root_refuted. Qed.
+
+Theorem C05_truncated_hash_refuted :
+  ' evs <- xml_encode e_amb EWriteUnknown d_amb [1];; spec_read evs = Err SE_SHARED.
+Proof. exact truncated_hash_refuted. Qed.
+
+Theorem C05_hash_collision_refuted :
+  exists f : sfile,
+         ' evs <- xml_encode e_col EWriteUnknown d_amb [1];; spec_read evs = Ok f /\
+         List.map
+           (fun i : sinst =>
+            List.map
+              (fun p : bytes * bytes * list node =>
+               (fst (fst p), decode_prop (sf_insts f) (sf_dict f) (snd (fst p)) (snd p))) 
+              (tl (si_props i))) (sf_insts f) =
+         [[(B "S1", SShared (Some (B "bbb"))); (B "S2", SShared (Some (B "bbb")))]].
+Proof. exact hash_collision_refuted. Qed.
+
+Theorem C05_spec_agree_computed :
+  written d_agree [1; 3] = [1; 2; 3] /\
+       NoDup (written d_agree [1; 3]) /\
+       (exists f : sfile,
+          ' evs <- xml_encode e_ex EWriteUnknown d_agree [1; 3];; spec_read evs = Ok f /\
+          List.map si_class (sf_insts f) = [B "Folder"; B "Model"; B "Part"] /\
+          List.map si_referent (sf_insts f) = [B "0"; B "2"; B "1"] /\
+          List.map si_parent (sf_insts f) = [0; 1; 0] /\
+          List.map si_name (sf_insts f) = [Some (B "  a]]>b"); Some (B "m"); Some (B "p")] /\
+          List.map
+            (fun i : sinst =>
+             List.map
+               (fun p : bytes * bytes * list node =>
+                (fst (fst p), decode_prop (sf_insts f) (sf_dict f) (snd (fst p)) (snd p))) 
+               (tl (si_props i))) (sf_insts f) =
+          [[(B "Blob", SShared (Some (B "xyz"))); (B "Count", SInt (-7)); (B "On", SBool true);
+            (B "Target", SRef (Some 3))];
+           [(B "Back", SRef (Some 1)); (B "Data", SBinary [1; 2; 3; 250]); (B "Gone", SRef None)];
+           [(B "Big", SInt64 (-9223372036854775808)); (B "E", SToken 5);
+            (B "F", SOther (B "float") [NText (B "INF")]); (B "None", SRef None)]] /\
+          sf_dict f = [(B "BwcHBwcHBwcHBwcHBwcHBw==", B "xyz")] /\ refs_resolved f = true).
+Proof. exact spec_agree_computed. Qed.
+
+Theorem C05_float_is_raw :
+  write_xml XmlFileFacts.o0 (VFloat32 F32_INF) = Some (B "float", Ok (flats [WText (B "INF")])) /\
+       decode_prop [] [] (B "float") (nodes_in t0 [WText (B "INF")]) = SOther (B "float") [NText (B "INF")].
+Proof. exact float_is_raw. Qed.
 
